@@ -750,3 +750,62 @@ func negotiatedHoldTimeReadAfterItIsStored(c *core.Ctx, rule string) {
 	}
 	c.Check(n >= 2, rule, "functions of the OPEN handling that store (or lead to the store of) the hold time", entry.Decl.Pos(), fmt.Sprintf("only %d found", n))
 }
+
+// checkRedistributeLeavesItsInputAlone: CheckRedistribute is called by every Adj-RIB-Out on the Loc-RIB's own path
+// objects while only the Loc-RIB READ lock is held (RefreshRoute during a policy change, UpdateNewClient, AddPath of two
+// sessions).  It must not store through its receiver: every field store in it goes through a variable that holds a fresh
+// Copy() on every path reaching the store.
+func checkRedistributeLeavesItsInputAlone(c *core.Ctx, rule string) {
+	f := c.MustFunc("route.(*Path).CheckRedistribute")
+	if f == nil {
+		return
+	}
+	c.Analysed(f)
+	recv := core.RecvObj(f)
+	g := c.P.CFG(f)
+	isCopy := func(e ast.Expr) bool {
+		cl, ok := core.Unparen(e).(*ast.CallExpr)
+		return ok && core.FuncKey(core.Callee(f.Pkg, cl)) == "route.(*Path).Copy"
+	}
+	n := 0
+	ast.Inspect(f.Decl.Body, func(nd ast.Node) bool {
+		as, ok := nd.(*ast.AssignStmt)
+		if !ok {
+			return true
+		}
+		for _, l := range as.Lhs {
+			if _, isSel := core.Unparen(l).(*ast.SelectorExpr); !isSel {
+				continue
+			}
+			root := rootObj(f, l)
+			if root == nil {
+				continue
+			}
+			n++
+			ok := true
+			if root == recv {
+				// the receiver variable must have been re-bound to a copy on every path to this store
+				rebinds := func(x ast.Node) bool {
+					a, isAs := x.(*ast.AssignStmt)
+					if !isAs || len(a.Lhs) != 1 || len(a.Rhs) != 1 {
+						return false
+					}
+					return core.ObjOf(f.Pkg, a.Lhs[0]) == recv && isCopy(a.Rhs[0])
+				}
+				ok = len(core.PathAvoiding(g, rebinds, func(x ast.Node) bool { return x == ast.Node(as) })) == 0
+			} else {
+				defs := core.DefsOf(f, root)
+				ok = len(defs) > 0
+				for _, d := range defs {
+					if !isCopy(d) {
+						ok = false
+					}
+				}
+			}
+			c.Check(ok, rule, fmt.Sprintf("%s store #%d goes to the copy", f.Name(), n), as.Pos(),
+				"a field is stored through the receiver (the Loc-RIB's own path object) instead of the copy: concurrent readers holding only the Loc-RIB read lock race with this write, and the change shows in every table")
+		}
+		return true
+	})
+	c.Check(n >= 2, rule, f.Name()+" field stores", f.Decl.Pos(), fmt.Sprintf("only %d found", n))
+}
